@@ -43,6 +43,8 @@ class Check(PropertyCheck):
 
     def scenario(self, rng: random.Random, tier) -> Scenario:
         family, jobs = gen.gen_instance(rng, max_jobs=4 if tier == "quick" else 5)
+        if rng.random() < 0.05:
+            jobs, family = gen.make_huge(rng, jobs), family + "+huge"
         f = gen.gen_filter(rng)
         lines = ["new", instance_line(jobs), gen.filter_line(f)]
         tr = gen.Tracker(jobs)
